@@ -580,6 +580,21 @@ class Group:
                 pass  # handled below, after body split
             else:
                 raise ValueError("%s: unknown fn directive %r" % (tmpl, d))
+        # rule R28: a by-value `mut self` receiver (Verus: "mut self" unsupported) becomes `self` with
+        # `let mut self_ = self;` as the first statement, and the body reads `self_` wherever it read `self`
+        mm = mask(text)
+        ms = re.search(r"\(\s*mut\s+self\s*(?=[,)])", mm)
+        if ms and ms.start() == mm.index("(", re.search(r"\bfn\b", mm).end() + 0) if ms else False:
+            b0 = mm.index("{", ms.end())
+            b1 = mm.rindex("}")
+            head = text[:ms.start()] + "(self" + text[ms.end():b0 + 1]
+            body_m, body_t = mm[b0 + 1:b1], text[b0 + 1:b1]
+            out, last = [], 0
+            for w in re.finditer(r"\bself\b", body_m):
+                out.append(body_t[last:w.start()]); out.append("self_"); last = w.end()
+            out.append(body_t[last:])
+            text = head + " let mut self_ = self;" + "".join(out) + text[b1:]
+            log.append({"rule": "R28-mut-self-receiver"})
         owner = getattr(it, "owner", None)
         if not (owner is not None and (owner.kind == "trait" or " for " in owner.name)):
             text = publicise(text, False)
